@@ -250,4 +250,335 @@ theorem gated_cell_end_to_end (c : Circuit) (L : List Nat) (nodes : Array CNode)
   rw [e]
   exact hs
 
+/-! ## arithmetic feedback: `m.write(f(m.read()))` as one self-reading combinator (C04, latency 1) -/
+
+theorem under_mono (v : VExpr) (a b : Nat) (hab : a ≤ b) (h : v.under a = true) : v.under b = true := by
+  have argm : ∀ x : Arg, argBelow a x = true → argBelow b x = true := by
+    intro x hx
+    cases x with
+    | int k => rfl
+    | node m =>
+      have : m < a := by simpa [argBelow] using hx
+      simp [argBelow]; omega
+  induction v with
+  | arg x => exact argm x h
+  | alu op y z ihy ihz =>
+    simp only [VExpr.under, Bool.and_eq_true] at h ⊢
+    exact ⟨ihy h.1, ihz h.2⟩
+  | cmpB op y z ihy ihz =>
+    simp only [VExpr.under, Bool.and_eq_true] at h ⊢
+    exact ⟨ihy h.1, ihz h.2⟩
+  | gate op y z w ihy ihz =>
+    simp only [VExpr.under, Bool.and_eq_true] at h ⊢
+    exact ⟨⟨ihy h.1.1, ihz h.1.2⟩, argm w h.2⟩
+  | allB cs =>
+    simp only [VExpr.under, List.all_eq_true, Bool.and_eq_true] at h ⊢
+    intro q hq
+    exact ⟨argm _ (h q hq).1, argm _ (h q hq).2⟩
+  | anyB cs =>
+    simp only [VExpr.under, List.all_eq_true, Bool.and_eq_true] at h ⊢
+    intro q hq
+    exact ⟨argm _ (h q hq).1, argm _ (h q hq).2⟩
+
+theorem stepIs_sound (c : Circuit) (L : List Nat) (x : Ctx) (hc : x.c = c.cut L)
+    (hall : ∀ m, m < x.nodes.size → Holds x.E x.nodes x.env x.bind m)
+    (inp : Inputs) (hinp : InputsOK c inp) (v : VExpr) (e : Nat) (s : Sig)
+    (hu : v.under x.nodes.size = true) (h : stepIs c x.c x.nodes x.bind v e s = true) :
+    get (c.evalEnt inp x.E e) s = v.val x.av := by
+  have hr : ∀ i, c.readR x.E i = x.c.readR x.E i := by intro i; rw [hc]; rfl
+  have hg : ∀ i, c.readG x.E i = x.c.readG x.E i := by intro i; rw [hc]; rfl
+  cases v with
+  | alu op y z =>
+    simp only [stepIs, stepIsAlu] at h
+    simp only [VExpr.under, Bool.and_eq_true] at hu
+    cases hk : c.kind e with
+    | arith cfg =>
+      simp only [hk, Bool.and_eq_true, Bool.not_eq_true', beq_iff_eq] at h
+      obtain ⟨⟨⟨⟨⟨hop, hf⟩, hs⟩, hout⟩, h1⟩, h2⟩ := h
+      have hno : inp e = none := by
+        cases hi : inp e with
+        | none => rfl
+        | some m =>
+          rcases hinp e m hi with ⟨_, cd, hk'⟩ | ⟨t, lit, hk', _⟩
+          · rw [hk] at hk'; cases hk'
+          · rw [hk] at hk'; cases hk'
+      have e1 : c.evalEnt inp x.E e = evalArith cfg (x.c.readR x.E e) (x.c.readG x.E e) := by
+        unfold Circuit.evalEnt; rw [hno, hk, hr, hg]
+      rw [e1, get_evalArith_scalar cfg s hf hs (outIs_spec _ _ hout), if_pos rfl,
+        opIs_sound x x.nodes.size hall _ y e cfg.first
+          (fun p t hp => entIs_sound x x.nodes.size hall y p t hu.1 hp) hu.1 h1,
+        opIs_sound x x.nodes.size hall _ z e cfg.second
+          (fun p t hp => entIs_sound x x.nodes.size hall z p t hu.2 hp) hu.2 h2, hop]
+      rfl
+    | _ => simp [hk] at h
+  | _ => simp [stepIs] at h
+
+/-- **C04, per program, latency 1.** In any state settled around the cells, the self-reading combinator `e`
+emits next tick exactly the written function of the cell's present content. -/
+theorem always_cell_end_to_end (c : Circuit) (L : List Nat) (nodes : Array CNode) (bind : Nat → Option Bind)
+    (hL : cutOK c L = true) (hall : checkAll (c.cut L) nodes bind = true)
+    (inp : Inputs) (env : Env) (hinp : InputsOK c inp) (E : Nat → SigMap)
+    (hsettled : ∀ i, L.contains i = false → c.evalEnt inp E i = E i) (hgates : GatesOK c L E)
+    (hagree : InputsAgree nodes bind (cutInp inp L E) env)
+    (e : Nat) (ty : Sig) (d : Arg)
+    (hcell : alwaysCellIs c (c.cut L) nodes bind e ty d = true) (cur : I32) :
+    get (c.evalEnt inp E e) ty = (WriteRule.always d).next nodes (evalNodes nodes env) cur := by
+  let x : Ctx := { c := c.cut L, inp := cutInp inp L E, E, nodes, env, bind,
+                   hfix := cut_fix c L inp E hsettled, hinp := cut_inputsOK c L inp E hinp hL hgates, hagree }
+  have hh := checkAll_sound x hall
+  unfold alwaysCellIs at hcell
+  cases d with
+  | int k => simp at hcell
+  | node m =>
+    simp only [Bool.and_eq_true, decide_eq_true_eq, List.any_eq_true] at hcell
+    obtain ⟨hm, v, hv, hu, hs⟩ := hcell
+    have := stepIs_sound c L x rfl hh inp hinp v e ty hu hs
+    rw [this]
+    show v.val (fun a => argVal nodes (evalNodes nodes env) a) = _
+    rw [lowerings_sound nodes env (m + 1) m v hv hm]
+    rfl
+
+/-! ## rings of arithmetic combinators (C04, any latency) -/
+
+theorem emitsOK_runF (c : Circuit) (inp : Inputs) (hinp : InputsOK c inp) : ∀ t, EmitsOK c (c.runF inp t) := by
+  intro t
+  cases t with
+  | succ t => intro p s h; exact emits_evalEnt c inp hinp (c.runF inp t) p s h
+  | zero =>
+    intro p s h
+    obtain ⟨hsrc, hk⟩ := mayEmit_false c p s h
+    simp only [Circuit.runF]
+    cases hi : inp p with
+    | some m =>
+      rcases hinp p m hi with ⟨hs, _⟩ | ⟨t, lit, hkind, hm⟩
+      · rw [hsrc] at hs; cases hs
+      · simp only [Kind.mayEmitB, hkind, Kind.emitList, List.map_cons, List.map_nil] at hk
+        have : ¬ s = t := by intro e; subst e; simp at hk
+        exact hm s this
+    | none =>
+      simp only
+      cases hkind : c.kind p with
+      | const m =>
+        simp only [Kind.mayEmitB, hkind, Kind.emitList] at hk
+        exact get_eq_zero_of_not_mem_keys m s (contains_false_not_mem _ s hk)
+      | _ => rfl
+
+theorem ringOperand_sound (c : Circuit) (E : Nat → SigMap) (hE : EmitsOK c E) (e : Nat) (s : Sig) (prev : Nat)
+    (o : Operand) (h : ringOperand c e s prev o = true) :
+    o.val (c.readR E e) (c.readG E e) = get (E prev) s := by
+  unfold ringOperand at h
+  cases o with
+  | const k => simp at h
+  | ref r sel =>
+    cases r with
+    | sig t =>
+      simp only [Bool.and_eq_true, beq_iff_eq] at h
+      obtain ⟨ht, hiso⟩ := h
+      subst ht
+      simp only [Operand.val]
+      exact read_isolated c E hE e sel t prev hiso
+    | _ => simp at h
+
+/-- a constant combinator emits the same thing at every tick of a run -/
+theorem runF_const (c : Circuit) (inp : Inputs) (p : Nat) (m : SigMap) (hk : c.kind p = .const m) :
+    ∀ t, c.runF inp t p = c.runF inp 0 p := by
+  intro t
+  cases t with
+  | zero => rfl
+  | succ t =>
+    simp only [Circuit.runF, Circuit.evalEnt, hk]
+
+/-- the value of a stage's side operand in the run: the integer, or what the input's combinator emits -/
+def Side.circVal (c : Circuit) (inp : Inputs) : Side → I32
+  | .int k => k
+  | .inp _ p t => get (c.runF inp 0 p) t
+
+/-- … and in the source -/
+def Side.coreVal (nodes : Array CNode) (env : Env) (sd : Side) : I32 := argVal nodes (evalNodes nodes env) sd.arg
+
+theorem sideOperand_sound (c : Circuit) (inp : Inputs) (hinp : InputsOK c inp) (nodes : Array CNode) (e n : Nat)
+    (o : Operand) (sd : Side) (t : Nat) (h : sideOperand c nodes e n o sd = true) :
+    o.val (c.readR (c.runF inp t) e) (c.readG (c.runF inp t) e) = sd.circVal c inp := by
+  cases sd with
+  | int k =>
+    cases o with
+    | const k' => simp [sideOperand] at h; simp [Operand.val, Side.circVal, h]
+    | ref _ _ => simp [sideOperand] at h
+  | inp q p ts =>
+    simp only [sideOperand, Bool.and_eq_true] at h
+    obtain ⟨⟨⟨_, _⟩, hkind⟩, hro⟩ := h
+    rw [ringOperand_sound c (c.runF inp t) (emitsOK_runF c inp hinp t) e ts p o hro]
+    cases hk : c.kind p with
+    | const m => rw [runF_const c inp p m hk t]; rfl
+    | _ => rw [hk] at hkind; simp at hkind
+
+/-- the law of one ring stage, at every tick of the run -/
+theorem ring_stage_law (c : Circuit) (inp : Inputs) (hinp : InputsOK c inp) (t : Nat)
+    (nodes : Array CNode) (s : Sig) (prevEnt : Nat) (prevArg : Arg) (st : RStage)
+    (h : ringStageOK c nodes s prevEnt prevArg st = true) :
+    get (c.runF inp (t + 1) st.ent) s = st.fn (st.side.circVal c inp) (get (c.runF inp t prevEnt) s) := by
+  have hE := emitsOK_runF c inp hinp t
+  unfold ringStageOK at h
+  simp only [Bool.and_eq_true] at h
+  obtain ⟨_, h⟩ := h
+  cases hn : nodes[st.node]? with
+  | none => simp [hn] at h
+  | some nd =>
+    cases nd with
+    | arith op a b ty =>
+      cases hk : c.kind st.ent with
+      | arith cfg =>
+        simp only [hn, hk, Bool.and_eq_true, Bool.not_eq_true', beq_iff_eq] at h
+        obtain ⟨⟨⟨⟨⟨hop, hcop⟩, hf⟩, hs⟩, hout⟩, hside⟩ := h
+        have hno : inp st.ent = none := by
+          cases hi : inp st.ent with
+          | none => rfl
+          | some m =>
+            rcases hinp st.ent m hi with ⟨_, cd, hk'⟩ | ⟨t', lit, hk', _⟩
+            · rw [hk] at hk'; cases hk'
+            · rw [hk] at hk'; cases hk'
+        have e1 : c.runF inp (t + 1) st.ent =
+            evalArith cfg (c.readR (c.runF inp t) st.ent) (c.readG (c.runF inp t) st.ent) := by
+          simp only [Circuit.runF, Circuit.evalEnt, hno, hk]
+        rw [e1, get_evalArith_scalar cfg s hf hs (outIs_spec _ _ hout), if_pos rfl]
+        unfold RStage.fn
+        cases hrf : st.ringFirst with
+        | true =>
+          simp only [hrf, if_true, Bool.and_eq_true, beq_iff_eq] at hside ⊢
+          obtain ⟨⟨⟨_, _⟩, hro⟩, hco⟩ := hside
+          rw [ringOperand_sound c _ hE st.ent s prevEnt cfg.first hro,
+            sideOperand_sound c inp hinp nodes st.ent st.node cfg.second st.side t hco, hcop, hop]
+        | false =>
+          simp only [hrf, Bool.false_eq_true, if_false, Bool.and_eq_true, beq_iff_eq] at hside ⊢
+          obtain ⟨⟨⟨_, _⟩, hro⟩, hco⟩ := hside
+          rw [ringOperand_sound c _ hE st.ent s prevEnt cfg.second hro,
+            sideOperand_sound c inp hinp nodes st.ent st.node cfg.first st.side t hco, hcop, hop]
+      | _ => simp [hn, hk] at h
+    | _ => simp [hn] at h
+
+/-- a chain of stages is a pipeline: the last stage shows, `length` ticks later, the chain applied to what the
+entity feeding the first stage shows now — at every tick of the run from power-on -/
+theorem ring_pipeline (c : Circuit) (inp : Inputs) (hinp : InputsOK c inp) (nodes : Array CNode) (s : Sig) :
+    ∀ (stages : List RStage) (p : Nat) (a : Arg), ringOK c nodes s p a stages = true → ∀ t,
+      get (c.runF inp (t + stages.length) (lastEnt p stages)) s =
+        chainVal (fun st => st.side.circVal c inp) stages (get (c.runF inp t p) s) := by
+  intro stages
+  induction stages with
+  | nil => intro p a _ t; simp [lastEnt, chainVal]
+  | cons st rest ih =>
+    intro p a h t
+    simp only [ringOK, Bool.and_eq_true] at h
+    obtain ⟨hst, hrest⟩ := h
+    have step := ring_stage_law c inp hinp t nodes s p a st hst
+    have := ih st.ent (.node st.node) hrest (t + 1)
+    have hl : lastEnt p (st :: rest) = lastEnt st.ent rest := rfl
+    rw [hl, show t + (st :: rest).length = t + 1 + rest.length by simp; omega, this, step]
+    simp [chainVal]
+
+/-- the same chain in the source: the last node denotes the chain applied to the value of the first argument -/
+theorem ring_core (c : Circuit) (nodes : Array CNode) (env : Env) (s : Sig) :
+    ∀ (stages : List RStage) (p : Nat) (a : Arg), ringOK c nodes s p a stages = true →
+      argVal nodes (evalNodes nodes env) (lastArg a stages) =
+        chainVal (fun st => st.side.coreVal nodes env) stages (argVal nodes (evalNodes nodes env) a) := by
+  intro stages
+  induction stages with
+  | nil => intro p a _; simp [lastArg, chainVal]
+  | cons st rest ih =>
+    intro p a h
+    simp only [ringOK, Bool.and_eq_true] at h
+    obtain ⟨hst, hrest⟩ := h
+    have hl : lastArg a (st :: rest) = lastArg (.node st.node) rest := rfl
+    rw [hl, ih st.ent (.node st.node) hrest]
+    have hv : argVal nodes (evalNodes nodes env) (.node st.node) =
+        st.fn (st.side.coreVal nodes env) (argVal nodes (evalNodes nodes env) a) := by
+      unfold ringStageOK at hst
+      simp only [Bool.and_eq_true] at hst
+      obtain ⟨hbelow, hst⟩ := hst
+      cases hn : nodes[st.node]? with
+      | none => simp [hn] at hst
+      | some nd =>
+        obtain ⟨hlt, hnd⟩ := kind_getD nodes st.node nd hn
+        cases nd with
+        | arith op x y ty =>
+          cases hk : c.kind st.ent with
+          | arith cfg =>
+            simp only [hn, hk, Bool.and_eq_true, Bool.not_eq_true', beq_iff_eq] at hst
+            obtain ⟨⟨⟨⟨⟨hop, _⟩, _⟩, _⟩, _⟩, hside⟩ := hst
+            -- the side argument lies below the node
+            have sideBelow : ∀ o, sideOperand c nodes st.ent st.node o st.side = true → argBelow st.node st.side.arg = true := by
+              intro o ho
+              cases hsd : st.side with
+              | int k => rfl
+              | inp q p' t' =>
+                rw [hsd] at ho
+                simp only [sideOperand, Bool.and_eq_true, decide_eq_true_eq] at ho
+                simp [Side.arg, argBelow, ho.1.1.1]
+            unfold RStage.fn Side.coreVal
+            cases hrf : st.ringFirst with
+            | true =>
+              simp only [hrf, if_true, Bool.and_eq_true, beq_iff_eq] at hside ⊢
+              obtain ⟨⟨⟨hx, hy⟩, _⟩, hso⟩ := hside
+              subst hx
+              show nodeVal nodes env st.node = _
+              rw [nodeVal_arith nodes env st.node hlt op x y ty hnd hbelow (by rw [hy]; exact sideBelow _ hso), hop, hy]
+            | false =>
+              simp only [hrf, Bool.false_eq_true, if_false, Bool.and_eq_true, beq_iff_eq] at hside ⊢
+              obtain ⟨⟨⟨hy, hx⟩, _⟩, hso⟩ := hside
+              subst hy
+              show nodeVal nodes env st.node = _
+              rw [nodeVal_arith nodes env st.node hlt op x y ty hnd (by rw [hx]; exact sideBelow _ hso) hbelow, hop, hx]
+          | _ => simp [hn, hk] at hst
+        | _ => simp [hn] at hst
+    rw [hv]
+    simp [chainVal]
+
+theorem chainVal_congr (k1 k2 : RStage → I32) (stages : List RStage) (h : ∀ st, st ∈ stages → k1 st = k2 st) (x : I32) :
+    chainVal k1 stages x = chainVal k2 stages x := by
+  induction stages generalizing x with
+  | nil => rfl
+  | cons st rest ih =>
+    simp only [chainVal, List.foldl_cons]
+    rw [h st (List.mem_cons_self)]
+    exact ih (fun st' hs => h st' (List.mem_cons_of_mem _ hs)) _
+
+/-- **C04, per program, at every tick.** If the ring `stages` of the decoded blueprint passes `ringCellIs` for the
+cell `m` written with `write(d)`, then in the run from the all-zero state, for every tick `t`: what the cell shows
+`L = stages.length` ticks later is the written function of what it shows now — `d` evaluated in the source
+semantics with the cell holding the present value and the declared inputs holding what their combinators emit. -/
+theorem ring_end_to_end (c : Circuit) (nodes : Array CNode) (s : Sig) (m readNode : Nat) (stages : List RStage)
+    (d : Arg) (hcell : ringCellIs c nodes s m readNode stages d = true)
+    (inp : Inputs) (hinp : InputsOK c inp) (t : Nat) (env : Env)
+    (hmem : env.mem m = get (c.runF inp t (lastEnt 0 stages)) s)
+    (hside : ∀ st, st ∈ stages → st.side.circVal c inp = st.side.coreVal nodes env) :
+    get (c.runF inp (t + stages.length) (lastEnt 0 stages)) s =
+      (WriteRule.always d).next nodes (evalNodes nodes env) (env.mem m) := by
+  unfold ringCellIs at hcell
+  simp only [Bool.and_eq_true, beq_iff_eq] at hcell
+  obtain ⟨⟨⟨_, hread⟩, hd⟩, hok⟩ := hcell
+  have hp := ring_pipeline c inp hinp nodes s stages (lastEnt 0 stages) (.node readNode) hok t
+  have hl : lastEnt (lastEnt 0 stages) stages = lastEnt 0 stages := by
+    cases stages with
+    | nil => rfl
+    | cons st rest => rfl
+  rw [hl] at hp
+  rw [hp, chainVal_congr _ _ stages hside]
+  have hc := ring_core c nodes env s stages (lastEnt 0 stages) (.node readNode) hok
+  simp only [WriteRule.next]
+  rw [hd, hc, ← hmem]
+  congr 1
+  -- the read node denotes the cell's content
+  cases hn : nodes[readNode]? with
+  | none => simp [hn] at hread
+  | some nd =>
+    obtain ⟨hlt, hnd⟩ := kind_getD nodes readNode nd hn
+    cases nd with
+    | memRead m' ty =>
+      simp only [hn, beq_iff_eq] at hread
+      subst hread
+      symm
+      show nodeVal nodes env readNode = _
+      rw [nodeVal_eq nodes env readNode hlt ty (by rw [hnd]; rfl), hnd]
+      simp [evalNode]
+    | _ => simp [hn] at hread
+
 end Facto
